@@ -173,8 +173,10 @@ def expected_apply(r):
 
 
 def settled(ps, r, st):
-    """the request ran under a fixed positive size and was never cancelled"""
-    return (r.cancelled_at is None and ps.size != 0 and first_ok_set_size(ps) is None and r.spec["coro"])
+    """the request was never cancelled and ran under a positive size (assignments to `pool_size` only to positive
+    values: an assignment of 0 may legitimately block the request for ever)"""
+    return (r.cancelled_at is None and ps.size != 0 and r.spec["coro"]
+            and all(v > 0 for (_, v, ok) in ps.set_size_steps if ok))
 
 
 def mon_C04(st):
